@@ -18,12 +18,27 @@ structure loopOk (P : Char → Prop) (l : ForLoop) : Prop where
   context : ctxOk P l.context
 
 def scopeOk (P : Char → Prop) : Scope → Prop
-  | .mk loops setVars parent context globalCtx =>
-    (∀ l ∈ loops, loopOk P l) ∧ ctxOk P setVars ∧
-    (match parent with
-     | some p => scopeOk P p
-     | none => True) ∧
-    ctxOk P context ∧ (∀ g, globalCtx = some g → ctxOk P g)
+  | .mk loops setVars none context globalCtx =>
+    (∀ l ∈ loops, loopOk P l) ∧ ctxOk P setVars ∧ ctxOk P context ∧ (∀ g, globalCtx = some g → ctxOk P g)
+  | .mk loops setVars (some p) context globalCtx =>
+    (∀ l ∈ loops, loopOk P l) ∧ ctxOk P setVars ∧ ctxOk P context ∧
+      (∀ g, globalCtx = some g → ctxOk P g) ∧ scopeOk P p
+
+theorem scopeOk_mk (loops : List ForLoop) (setVars : Ctx) (parent : Option Scope) (context : Ctx)
+    (globalCtx : Option Ctx) :
+    scopeOk P (.mk loops setVars parent context globalCtx) ↔
+      ((∀ l ∈ loops, loopOk P l) ∧ ctxOk P setVars ∧
+      (match parent with
+       | some p => scopeOk P p
+       | none => True) ∧
+      ctxOk P context ∧ (∀ g, globalCtx = some g → ctxOk P g)) := by
+  cases parent with
+  | none => rw [scopeOk]; simp
+  | some p =>
+    rw [scopeOk]; simp only
+    constructor
+    · rintro ⟨a, b, c, d, e⟩; exact ⟨a, b, e, c, d⟩
+    · rintro ⟨a, b, e, c, d⟩; exact ⟨a, b, c, d, e⟩
 
 theorem ctxOk_nil : ctxOk P [] := fun _ h => by cases h
 
@@ -85,7 +100,7 @@ theorem loopsGet_ok {loops : List ForLoop} {n : String} {v : Value} (hl : ∀ l 
 
 theorem loopOk_new {items : List LoopItem} (compr : Bool) (h : ∀ it ∈ items, itemOk P it) :
     loopOk P (ForLoop.new items compr) :=
-  ⟨h, ⟨fun _ hk => by cases hk, by simp⟩, ctxOk_nil⟩
+  ⟨h, ⟨fun _ hk => (nomatch hk), safeOk_undef⟩, ctxOk_nil⟩
 
 theorem loopOk_storeLocalName {l : ForLoop} (n : String) (h : loopOk P l) : loopOk P (l.storeLocalName n) := by
   unfold ForLoop.storeLocalName
@@ -158,7 +173,7 @@ theorem iterItems_ok {v : Value} {items : List LoopItem} (hv : safeOk P v) (h : 
     simp only [Option.some.injEq] at h; subst h
     intro it hi
     obtain ⟨x, hx, rfl⟩ := List.mem_map.1 hi
-    exact ⟨fun _ hk => by cases hk, (safeOk_arr xs).1 hv x hx⟩
+    exact ⟨fun _ hk => (nomatch hk), (safeOk_arr xs).1 hv x hx⟩
   · rename_i es
     simp only [Option.some.injEq] at h; subst h
     intro it hi
@@ -169,43 +184,46 @@ theorem iterItems_ok {v : Value} {items : List LoopItem} (hv : safeOk P v) (h : 
   · simp only [Option.some.injEq] at h; subst h
     intro it hi
     obtain ⟨x, _, rfl⟩ := List.mem_map.1 hi
-    exact ⟨fun _ hk => by cases hk, by simp⟩
+    exact ⟨fun _ hk => (nomatch hk), by simp⟩
   · simp only [Option.some.injEq] at h; subst h
     intro it hi
     obtain ⟨x, _, rfl⟩ := List.mem_map.1 hi
-    exact ⟨fun _ hk => by cases hk, by simp⟩
+    exact ⟨fun _ hk => (nomatch hk), by simp⟩
   · cases h
 
 /-! ### scopes -/
 
-theorem scopeOk_getValue : ∀ (sc : Scope) (n : String), scopeOk P sc → safeOk P (sc.getValue n)
-  | .mk loops setVars parent context globalCtx, n, h => by
-    obtain ⟨hl, hs, hp, hc, hg⟩ := h
-    have hpar : safeOk P (match parent with
-        | some p => Scope.getValue p n
-        | Option.none => Value.undef) := by
-      cases parent with
-      | none => simp
-      | some p => exact scopeOk_getValue p n hp
-    unfold Scope.getValue Scope.resolve
-    generalize (match parent with
-        | some p => Scope.getValue p n
-        | Option.none => Value.undef) = fromParent at hpar
-    simp only
-    split
-    · rename_i v hv; exact loopsGet_ok hl hv
+theorem resolve_ok {loops : List ForLoop} {setVars context : Ctx} {globalCtx : Option Ctx}
+    {fromParent : Value} (n : String) (hl : ∀ l ∈ loops, loopOk P l) (hs : ctxOk P setVars)
+    (hpar : safeOk P fromParent) (hc : ctxOk P context) (hg : ∀ g, globalCtx = some g → ctxOk P g) :
+    safeOk P (Scope.resolve loops setVars fromParent context globalCtx n) := by
+  unfold Scope.resolve
+  split
+  · rename_i v hv; exact loopsGet_ok hl hv
+  · split
+    · rename_i v hv; exact ctxOk_get hs hv
     · split
-      · rename_i v hv; exact ctxOk_get hs hv
+      · exact hpar
       · split
-        · exact hpar
+        · rename_i v hv; exact ctxOk_get hc hv
         · split
-          · rename_i v hv; exact ctxOk_get hc hv
-          · split
-            · rename_i g
-              cases hgv : g.get n with
-              | none => simp
-              | some v => exact ctxOk_get (hg g rfl) hgv
-            · simp
+          · rename_i g
+            cases hgv : g.get n with
+            | none => simp
+            | some v => exact ctxOk_get (hg g rfl) hgv
+          · simp
+
+theorem scopeOk_getValue : ∀ (sc : Scope) (n : String), scopeOk P sc → safeOk P (sc.getValue n)
+  | .mk loops setVars none context globalCtx, n, h => by
+    rw [scopeOk_mk] at h
+    obtain ⟨hl, hs, _, hc, hg⟩ := h
+    unfold Scope.getValue
+    exact resolve_ok n hl hs (by simp) hc hg
+  | .mk loops setVars (some p) context globalCtx, n, h => by
+    rw [scopeOk_mk] at h
+    obtain ⟨hl, hs, hp, hc, hg⟩ := h
+    unfold Scope.getValue
+    exact resolve_ok n hl hs (scopeOk_getValue p n hp) hc hg
 
 theorem ctxInto_ok {acc : Entries} {c : Ctx} (ha : safeOk P (.map acc)) (hc : ctxOk P c) :
     safeOk P (.map (ctxInto acc c)) := by
@@ -223,20 +241,18 @@ theorem ctxInto_ok {acc : Entries} {c : Ctx} (ha : safeOk P (.map acc)) (hc : ct
 
 theorem scopeOk_dumpContext : ∀ (sc : Scope), scopeOk P sc → safeOk P (dumpContext sc)
   | .mk loops setVars parent context globalCtx, h => by
+    rw [scopeOk_mk] at h
     obtain ⟨hl, hs, _, hc, hg⟩ := h
     unfold dumpContext
     simp only [Scope.globalContext, Scope.context, Scope.setVariables, Scope.forLoops]
-    have h0 : safeOk P (.map (match globalCtx with
+    have h0 : ∀ (gc : Option Ctx), (∀ g, gc = some g → ctxOk P g) → safeOk P (.map (match gc with
         | some g => ctxInto [] g
         | none => [])) := by
-      cases globalCtx with
+      intro gc hgc
+      cases gc with
       | none => simp
-      | some g => exact ctxInto_ok (by simp) (hg g rfl)
-    generalize (match globalCtx with
-        | some g => ctxInto [] g
-        | none => []) = acc0 at h0
-    have h1 := ctxInto_ok (ctxInto_ok h0 hc) hs
-    generalize ctxInto (ctxInto acc0 context) setVars = acc1 at h1
+      | some g => exact ctxInto_ok (by simp) (hgc g rfl)
+    have h1 := ctxInto_ok (ctxInto_ok (h0 globalCtx hg) hc) hs
     have : ∀ (l : List ForLoop) (a : Entries), (∀ x ∈ l, loopOk P x) → safeOk P (.map a) →
         safeOk P (.map (l.foldl (fun a l => ctxInto a l.context) a)) := by
       intro l
@@ -257,14 +273,20 @@ theorem scopeOk_lookupName {sc : Scope} (n : String) (h : scopeOk P sc) : safeOk
 theorem scopeOk_storeGlobal : ∀ (sc : Scope) (n : String) (v : Value), scopeOk P sc → safeOk P v →
     scopeOk P (sc.storeGlobal n v)
   | .mk loops setVars parent context globalCtx, n, v, h, hv => by
+    rw [scopeOk_mk] at h
     obtain ⟨hl, hs, hp, hc, hg⟩ := h
+    simp only [Scope.storeGlobal]
+    rw [scopeOk_mk]
     exact ⟨hl, ctxOk_insert n hs hv, hp, hc, hg⟩
 
 theorem scopeOk_storeLocal : ∀ (sc : Scope) (n : String) (v : Value), scopeOk P sc → safeOk P v →
     scopeOk P (sc.storeLocal n v)
   | .mk [] setVars parent context globalCtx, n, v, h, hv => scopeOk_storeGlobal _ n v h hv
   | .mk (l :: rest) setVars parent context globalCtx, n, v, h, hv => by
+    rw [scopeOk_mk] at h
     obtain ⟨hl, hs, hp, hc, hg⟩ := h
+    simp only [Scope.storeLocal]
+    rw [scopeOk_mk]
     refine ⟨?_, hs, hp, hc, hg⟩
     intro x hx
     rcases List.mem_cons.1 hx with rfl | hx
@@ -273,7 +295,10 @@ theorem scopeOk_storeLocal : ∀ (sc : Scope) (n : String) (v : Value), scopeOk 
 
 theorem scopeOk_pushLoop : ∀ (sc : Scope) (l : ForLoop), scopeOk P sc → loopOk P l → scopeOk P (sc.pushLoop l)
   | .mk loops setVars parent context globalCtx, l, h, hl' => by
+    rw [scopeOk_mk] at h
     obtain ⟨hl, hs, hp, hc, hg⟩ := h
+    simp only [Scope.pushLoop]
+    rw [scopeOk_mk]
     refine ⟨?_, hs, hp, hc, hg⟩
     intro x hx
     rcases List.mem_cons.1 hx with rfl | hx
@@ -282,14 +307,20 @@ theorem scopeOk_pushLoop : ∀ (sc : Scope) (l : ForLoop), scopeOk P sc → loop
 
 theorem scopeOk_popLoop : ∀ (sc : Scope), scopeOk P sc → scopeOk P sc.popLoop
   | .mk loops setVars parent context globalCtx, h => by
+    rw [scopeOk_mk] at h
     obtain ⟨hl, hs, hp, hc, hg⟩ := h
+    simp only [Scope.popLoop]
+    rw [scopeOk_mk]
     exact ⟨fun x hx => hl x (List.mem_of_mem_tail hx), hs, hp, hc, hg⟩
 
 theorem scopeOk_setTopLoop : ∀ (sc : Scope) (l : ForLoop), scopeOk P sc → loopOk P l →
     scopeOk P (sc.setTopLoop l)
   | .mk [] setVars parent context globalCtx, l, h, _ => h
   | .mk (l0 :: rest) setVars parent context globalCtx, l, h, hl' => by
+    rw [scopeOk_mk] at h
     obtain ⟨hl, hs, hp, hc, hg⟩ := h
+    simp only [Scope.setTopLoop]
+    rw [scopeOk_mk]
     refine ⟨?_, hs, hp, hc, hg⟩
     intro x hx
     rcases List.mem_cons.1 hx with rfl | hx
@@ -297,13 +328,17 @@ theorem scopeOk_setTopLoop : ∀ (sc : Scope) (l : ForLoop), scopeOk P sc → lo
     · exact hl x (by simp [hx])
 
 theorem scopeOk_forLoops : ∀ (sc : Scope), scopeOk P sc → ∀ l ∈ sc.forLoops, loopOk P l
-  | .mk loops setVars parent context globalCtx, h => h.1
+  | .mk _ _ _ _ _, h => ((scopeOk_mk ..).1 h).1
 
 theorem scopeOk_included : ∀ (sc : Scope), scopeOk P sc → scopeOk P (Scope.included sc)
-  | .mk loops setVars parent context globalCtx, h =>
-    ⟨fun _ hx => by cases hx, ctxOk_nil, h, h.2.2.2.1, fun _ hg => by cases hg⟩
+  | .mk loops setVars parent context globalCtx, h => by
+    simp only [Scope.included, Scope.context]
+    rw [scopeOk_mk]
+    exact ⟨fun _ hx => (nomatch hx), ctxOk_nil, h, ((scopeOk_mk ..).1 h).2.2.2.1, fun _ hg => (nomatch hg)⟩
 
-theorem scopeOk_root {ctx g : Ctx} (hc : ctxOk P ctx) (hg : ctxOk P g) : scopeOk P (Scope.root ctx g) :=
-  ⟨fun _ hx => by cases hx, ctxOk_nil, trivial, hc, fun g' h => by cases h; exact hg⟩
+theorem scopeOk_root {ctx g : Ctx} (hc : ctxOk P ctx) (hg : ctxOk P g) : scopeOk P (Scope.root ctx g) := by
+  unfold Scope.root
+  rw [scopeOk_mk]
+  exact ⟨fun _ hx => (nomatch hx), ctxOk_nil, trivial, hc, fun g' h => by cases h; exact hg⟩
 
 end Tera.Vm
